@@ -389,17 +389,34 @@ def run_backpressure(case):
             try:
                 for i in range(count):
                     rec["next_calls"] += 1
-                    if i in gated:
+                    if i in gated and kind == "agen":
                         await sched.gate(f"it:{name}/{i}")
                     if fail_at == i:
                         raise Boom("source failed")
-                    yield item(i)
+                    # "agen-aw": the generator yields awaitable items at the gated positions
+                    yield later(f"i:{name}/{i}", item(i)) if i in gated and kind == "agen-aw" else item(i)
+            finally:
+                rec["finalized"] += 1
+        return agen()
+
+    def tail(i):
+        if not case.get("tail_agen"):
+            return [i, i + 1, i + 2]
+        rec = {"path": ["tail", i], "started": 0, "finalized": 0, "next_calls": 0}
+        sources.append(rec)
+
+        async def agen():
+            rec["started"] += 1
+            try:
+                for j in range(3):
+                    rec["next_calls"] += 1
+                    yield i + j
             finally:
                 rec["finalized"] += 1
         return agen()
 
     def x(i):
-        return {"id": i, "tail": [i, i + 1, i + 2], "slow": (lambda _info: later(f"f:slow/{i}", i)) if i in gated else i}
+        return {"id": i, "tail": (lambda _info: tail(i)), "slow": (lambda _info: later(f"f:slow/{i}", i)) if i in gated else i}
 
     root = {"ys": lambda _info, n=0: make_list("ys", n, lambda i: i),
             "xs": lambda _info, n=0: make_list("xs", n, x),
@@ -463,6 +480,9 @@ def run_backpressure(case):
         it = r.subsequent_results
         while True:
             if stop["kind"] == "aclose" and out["payloads"] == stop["after"]:
+                if case.get("settle_before_stop"):
+                    # let eager producers run until they park on the full queue before closing
+                    await sched.gate("pre-close")
                 out["stop_done"] = True
                 frozen["on"] = True
                 await lib(it.aclose())
@@ -576,15 +596,21 @@ def g_backpressure(c):
         stop = {"kind": "aclose", "after": c.choose([0, 0, 1, 1, 2, 3])}
     else:
         stop = {"kind": "abort", "after": c.choose([0, 0, 1, 2]), "reason": c.choose(["none", "exc", "str"])}
-    if c.chance(400):
+    if c.chance(100):
         # the source ends exactly when the buffer is full: the producer parks on its final entry
         n = initial + 100 * (stop.get("after", 0) + 1) + c.choose([0, 0, 0, 1, -1])
     else:
         n = c.choose([99, 100, 101, 102, 103, 150, 199, 200, 201, 202, 203, 230, 301])
     near = [0, 1, 98, 99, 100, 101, 102, initial + 99, initial + 100, initial + 101, 199, 200, 201, n - 2, n - 1]
-    gated = sorted({x_ for x_ in (c.choose(near) for _ in range(c.count(0, 4))) if 0 <= x_ < n})
-    return {"n": n, "initial": initial, "doc": c.pick(len(BP_DOCS)), "source": c.choose(["list", "agen", "agen"]),
-            "gated": gated, "fail_at": c.choose(near) if c.chance(80) else None, "early": c.chance(600),
+    gated = {x_ for x_ in (c.choose(near) for _ in range(c.count(0, 4))) if 0 <= x_ < n}
+    if c.chance(128):
+        # the entry that is in the producer's hands when the buffer is full (sometimes with a neighbour)
+        edge = initial + 100 * (stop.get("after", 0) + 1)
+        gated |= {x_ for x_ in [edge] + [[], [edge - 1], [edge + 1]][c.pick(3)] if 0 <= x_ < n}
+    gated = sorted(gated)
+    return {"n": n, "initial": initial, "doc": c.pick(len(BP_DOCS)), "source": c.choose(["list", "agen", "agen-aw"]),
+            "gated": gated, "fail_at": c.choose(near) if c.chance(80) else None, "early": c.chance(140),
+            "settle_before_stop": c.chance(150), "tail_agen": c.chance(150),
             "stop": stop, "schedule": c.ints(40, 8)}
 
 
